@@ -153,6 +153,7 @@ Section Run.
       destruct r; cbn [req_target]; try reflexivity.
       + apply V. exact A.
       + apply V. exact A.
+      + apply V. exact A.
       + destruct A as [c [Hc [<- _]]]. apply P. exact Hc.
       + destruct A as [c [uids [Hc [<- _]]]]. apply P. exact Hc.
   Qed.
